@@ -320,7 +320,14 @@ impl Router {
             Ok(hostname) => {
                 //FIXME: necessary ti build on stable rust (1.35), can be removed once 1.36 is there
                 let mut empty = true;
-                if let Some((_, paths)) = self.tree.domain_lookup_mut(hostname.as_bytes(), false) {
+                // `domain_lookup_mut` also resolves a plain host through a
+                // sibling regex segment: only the leaf stored under this very
+                // hostname is the one to append to.
+                if let Some((_, paths)) = self
+                    .tree
+                    .domain_lookup_mut(hostname.as_bytes(), false)
+                    .filter(|(key, _)| key.as_slice() == hostname.as_bytes())
+                {
                     empty = false;
                     let before = paths.len();
                     if !paths.iter().any(|(p, m, _)| p == path && m == method) {
@@ -390,7 +397,12 @@ impl Router {
         match ::idna::domain_to_ascii(hostname) {
             Ok(hostname) => {
                 let should_delete = {
-                    let paths_opt = self.tree.domain_lookup_mut(hostname.as_bytes(), false);
+                    // same as in `add_tree_rule`: never edit the leaf of a
+                    // regex host that merely matches this hostname
+                    let paths_opt = self
+                        .tree
+                        .domain_lookup_mut(hostname.as_bytes(), false)
+                        .filter(|(key, _)| key.as_slice() == hostname.as_bytes());
 
                     if let Some((_, paths)) = paths_opt {
                         paths.retain(|(p, m, _)| p != path || m != method);
@@ -419,7 +431,9 @@ impl Router {
                     // the `partial_key == b"*"` case and would always read
                     // None for a wildcard host, weakening the check).
                     debug_assert!(
-                        self.tree.domain_lookup_mut(&removed_host, false).is_none(),
+                        self.tree
+                            .domain_lookup_mut(&removed_host, false)
+                            .is_none_or(|(key, _)| key != &removed_host),
                         "a domain whose last rule was removed must be unreachable",
                     );
                 }
